@@ -355,15 +355,16 @@ int main() {
             else std::cout << "P r=" << pending_rets << " s=" << snapshot() << "\n";
             pending = false; settle_pending = false; last_root_ctl = -1;
         }
-        std::string line;
-        if (!std::getline(std::cin, line)) { drop_exec(); drop_tree(); loop->exitLoop(); return; }
+        // a malformed op line is answered with `bad-op` and does not take a loop pass (the model does not step either):
+        // the next line is read at once
+        auto handle = [&](const std::string &line) -> bool {
         auto w = vh::words(line);
-        if (w.empty()) return;
-        if (w[0] == "case") { drop_exec(); drop_tree(); free_mode = false; std::cout << line << "\n"; return; }
+        if (w.empty()) return true;
+        if (w[0] == "case") { drop_exec(); drop_tree(); free_mode = false; std::cout << line << "\n"; return true; }
         // ---- executor ops (only in a case without a tree)
         if (w[0][0] == 'x') {
             uint64_t n, pr;
-            if (root) { std::cout << "bad-op\n"; return; }
+            if (root) { std::cout << "bad-op\n"; return false; }
             if (w[0] == "xapp" && w.size() == 3 && (w[1] == "D" || w[1] == "Fs" || w[1] == "Ff" || w[1] == "X") &&
                 vh::to_u64(w[2], pr) && pr <= 2 && xcount < 30) {
                 ensure_exec();
@@ -394,18 +395,18 @@ int main() {
                 pending = true;
             } else if (w[0] == "xpass" && w.size() == 1 && xexec) {
                 pending_rets = "1"; pending = true;
-            } else std::cout << "bad-op\n";
-            return;
+            } else { std::cout << "bad-op\n"; return false; }
+            return true;
         }
-        if (xexec) { std::cout << "bad-op\n"; return; }
+        if (xexec) { std::cout << "bad-op\n"; return false; }
         if (w[0] == "cfg" && w.size() == 2 && w[1].size() == 4 && root == nullptr &&
-            w[1].find_first_not_of("01") == std::string::npos) { std::cout << "P cfg\n"; return; }
+            w[1].find_first_not_of("01") == std::string::npos) { std::cout << "P cfg\n"; return true; }
         if (w[0] == "tree") {
             Parser ps; ps.toks.assign(w.begin() + 1, w.end());
             Action *t = ps.node(0);
             if (!t || ps.pos != ps.toks.size() || ps.next_id > 40) {
                 for (auto x : ps.orphans) delete x;
-                std::cout << "bad-op\n"; return;
+                std::cout << "bad-op\n"; return false;
             }
             drop_tree();
             root = t; nodes = ps.made; dummies = ps.dums;
@@ -433,13 +434,13 @@ int main() {
             if (auto as = dynamic_cast<AssembleAction*>(root))
                 as->setFinalCallback([] { ev("final 0"); check_final(0); run_script(scr_final); run_iscript(scr_ifinal, 0); });
             std::cout << "P tree n=" << nodes.size() << " s=" << snapshot() << "\n";
-            return;
+            return true;
         }
-        if (!root) { std::cout << "bad-op\n"; return; }
+        if (!root) { std::cout << "bad-op\n"; return false; }
         uint64_t k;
         if ((w[0] == "do" || w[0] == "defer") && w.size() >= 2) {
             std::vector<Call> cs;
-            for (size_t i = 1; i < w.size(); ++i) { Call c; if (!parse_call(w[i], c)) { std::cout << "bad-op\n"; return; } cs.push_back(c); }
+            for (size_t i = 1; i < w.size(); ++i) { Call c; if (!parse_call(w[i], c)) { std::cout << "bad-op\n"; return false; } cs.push_back(c); }
             if (w[0] == "do") {
                 pending_rets.clear();
                 for (auto &c : cs) pending_rets += do_call(c) ? "1" : "0";
@@ -451,9 +452,9 @@ int main() {
         } else if (w[0] == "icb" && w.size() >= 5 && w.size() <= 10 && (w[1] == "body" || w[1] == "final")) {
             uint64_t n, tg;
             if (!vh::to_u64(w[2], n) || n >= nodes.size() || !vh::to_u64(w[3], tg) || tg >= nodes.size() ||
-                (w[1] == "body" ? !is_func[n] : !is_asm[n])) { std::cout << "bad-op\n"; return; }
+                (w[1] == "body" ? !is_func[n] : !is_asm[n])) { std::cout << "bad-op\n"; return false; }
             std::vector<ICall> cs;
-            for (size_t i = 4; i < w.size(); ++i) { Call c; if (!parse_call(w[i], c) || c.kind == 5) { std::cout << "bad-op\n"; return; } cs.push_back(ICall{c.kind}); }
+            for (size_t i = 4; i < w.size(); ++i) { Call c; if (!parse_call(w[i], c) || c.kind == 5) { std::cout << "bad-op\n"; return false; } cs.push_back(ICall{c.kind}); }
             (w[1] == "body" ? scr_body : scr_ifinal)[(int)n].push_back(std::make_pair((int)tg, cs));
             free_mode = true;
             pending_rets = "-"; pending = true;
@@ -462,14 +463,21 @@ int main() {
             pending_rets = "-"; pending = true; settle_pending = true; settle_wait = 2 * (int)nodes.size() + 4;
         } else if (w[0] == "cb" && w.size() >= 3 && w.size() <= 8 && (w[1] == "final" || w[1] == "fin" || w[1] == "blk")) {
             std::vector<Call> cs;
-            for (size_t i = 2; i < w.size(); ++i) { Call c; if (!parse_call(w[i], c) || c.kind == 5) { std::cout << "bad-op\n"; return; } cs.push_back(c); }
+            for (size_t i = 2; i < w.size(); ++i) { Call c; if (!parse_call(w[i], c) || c.kind == 5) { std::cout << "bad-op\n"; return false; } cs.push_back(c); }
             (w[1] == "final" ? scr_final : w[1] == "fin" ? scr_fin : scr_blk).push_back(cs);
             pending_rets = "-"; pending = true;
         } else if (w[0] == "adv" && w.size() == 2 && vh::to_u64(w[1], k) && k <= 100) {
             vt::advance_ms((int64_t)(100 * k)); pending_rets = "-"; pending = true;
         } else if (w[0] == "pass" && w.size() == 1) {
             pending_rets = "-"; pending = true;
-        } else std::cout << "bad-op\n";
+        } else { std::cout << "bad-op\n"; return false; }
+            return true;
+        };
+        for (;;) {
+            std::string line;
+            if (!std::getline(std::cin, line)) { drop_exec(); drop_tree(); loop->exitLoop(); return; }
+            if (handle(line)) break;
+        }
     });
     fdev->enable();
     loop->runLoop(event::Loop::Mode::kForever);
